@@ -183,29 +183,37 @@ CHECKS = {
               "methods per translator is not under contract"),
         design='DESIGN.md section 4 (C11)'),
     'C03': dict(
-        level='exploration',
-        technique='bounded stand-in only: the real TypeErasure (with the type dependency analysis) run on hand-built and generated programs in four languages, steered over the equally large candidate sets it may choose, and judged by a structural before/after diff of every node attribute plus an independent three-valued local type inference',
-        text=("NOT proved. First sentence (only declared types / explicit type arguments are removed, every other node, name, "
-              "modifier and recorded type identical): structural snapshot diff of the whole program object graph. Second "
-              "sentence (still well-typed when each removed annotation is replaced by what a compiler infers): an independent "
-              "local inference written from the statement re-derives every removed annotation from the remaining program and "
-              "re-types the uses of narrowed variables; undecided cases (lambdas, projections, bound-only type parameters) are "
-              "counted, not judged. One genuine defect found and repaired in /repo (initialiser is a field of the enclosing "
-              "class). A deductive treatment would need the type system of four languages as a contract: out of reach."),
-        note="bounded: 14 hand-built scenarios x 2 element types x 4 languages + fixed generator seed lists (10 per language quick, 41-52 thorough); inferred-narrower-than-declared is counted, not reported",
-        design='DESIGN.md section 4 (C03/C04)'),
+        level='proof',
+        technique='write frame of the erasure by deductive site obligations (slice mode of the VC generator, z3) + contracts of the two omit_type overrides + a syntactic write census of the three modules; the inferability sentence by bounded evaluation (structural diff + independent three-valued local type inference on hand-built and generated programs)',
+        text=("Proved for every program (first sentence of the statement, as a write frame): TypeErasure writes into the program "
+              "only by switching can_infer_type_args of an instantiation ON and by calling omit_type() on the declaration of a "
+              "selected candidate node; both omit_type overrides set exactly the declared type (var_type / ret_type) to None and "
+              "change nothing else; type_erasure.py, transformations/base.py and type_dependency_analysis.py contain no other "
+              "store, in-place mutation or call of an IR-mutating method that could reach the program (census regenerated from the "
+              "AST on every run; the analysis' own type graph and the cached callee link FunctionCall.type_parameters are the "
+              "listed exceptions). NOT proved -- bounded: the second sentence (each removed annotation is what a compiler "
+              "infers; the program stays well-typed), i.e. the meaning of is_combination_feasible: an independent local "
+              "inference re-derives every removed annotation on hand-built and generated programs in four languages. One "
+              "genuine defect found there and repaired in /repo."),
+        note=("trusted: slice-mode havoc, the syntactic census (aliasing only via fresh objects), DefaultVisitorUpdate / "
+              "update_children re-install unchanged children (not proved); bounded: 14 hand-built scenarios x 2 element types x "
+              "4 languages + fixed generator seed lists; inferred-narrower-than-declared is counted, not reported"),
+        design='DESIGN.md section 10.3 (C03/C04)'),
     'C04': dict(
-        level='exploration',
-        technique='bounded stand-in only: the real TypeOverwriting run on the same programs (plain and erased) for several RNG seeds, judged by structural diff (exactly one declared type changed), declarative unrelatedness incl. assignment conversions, message content, translation change, a three-valued must-reject approximation and javac where a Java translation exists',
-        text=("NOT proved. Whenever an injection is reported: exactly one declared type / explicit type argument differs, the new "
-              "type is neither subtype, supertype nor assignable either way (independent relation over the program's class "
-              "table), the message names old type, new type and node, the translation changes, and the local approximation "
-              "(or javac) rejects the program; when nothing is reported the translation and the program are unchanged. One "
-              "defect repaired in /repo (erased, unprinted type arguments were overwritten); two recorded as known findings "
-              "(method-call type arguments never printed by the Java/Groovy translators; assignment conversions ignored by "
-              "the irrelevant-type search). The dependency on find_irrelevant_type is C09's bounded check."),
-        note="bounded: same program set x RNG seeds of the mutation; 'a correct type checker must reject' is approximated (three-valued), decided by javac only for a budgeted Java subset",
-        design='DESIGN.md section 4 (C03/C04)'),
+        level='proof',
+        technique='deductive site obligations at the attribute stores of TypeOverwriting.visit_func_decl (slice mode, z3) + syntactic write census of the module; the semantic clauses by bounded evaluation (structural diff, declarative unrelatedness incl. assignment conversions, message, translation change, must-reject approximation and javac)',
+        text=("Proved for every program and every random choice: each declared type the mutation writes (var_type / ret_type / "
+              "inferred_type) is the non-None result of the irrelevant-type search and is written into the declaration of the "
+              "selected candidate node; an injection is reported (error_injected, is_transformed) only on a path on which the "
+              "declared type of that candidate -- var_type for a variable, ret_type otherwise -- and its recorded type were "
+              "overwritten with that result; type_overwriting.py writes nothing else into the program (census). NOT proved -- "
+              "bounded: 'exactly one' for an overwritten type argument of an instantiation (that branch is abstracted), "
+              "unrelatedness of the new type (C09), message content, that the translation changes, that a correct checker "
+              "must reject, and the nothing-injected case. One defect repaired in /repo; four check names are known findings."),
+        note=("trusted: slice-mode havoc, find_irrelevant_type does not modify the program, the syntactic census; bounded: same "
+              "program set as C03 x RNG seeds of the mutation; 'must reject' is approximated (three-valued), decided by javac "
+              "only for a budgeted Java subset"),
+        design='DESIGN.md section 10.3 (C03/C04)'),
     'C18': dict(
         level='exploration',
         technique='bounded stand-in only: the real pipeline (generate, translate, TypeErasure, translate, TypeOverwriting, translate) run for a finite list of language x seed x switches x depth limit x mutation options; no exception in any stage, work budgets for termination, erasure search budget, and a nesting bound derived from the generator code as a function of the configured depth',
